@@ -1448,3 +1448,989 @@ Proof.
   cbn [observe pure_op] in O. unfold model_str, pure_render_html.
   destruct (root_subst rt) as [rt'|]; cbn in O |- *; [|discriminate]. inversion O. reflexivity.
 Qed.
+
+(* ==================================================================================== *)
+(* 10. the document construction refines its pure reading                               *)
+(* ==================================================================================== *)
+
+(* v's graph lies in [lo, hi) *)
+Definition frozen (lo hi : nat) (h : heap) (v : val) : Prop :=
+  forall x, reach h v x -> (lo <= x < hi)%nat.
+
+(* h' has all the objects of h, unchanged except possibly at the locations K *)
+Definition keeps (K : list nat) (h h' : heap) : Prop :=
+  (length h <= length h')%nat /\
+  forall c, (c < length h)%nat -> ~ In c K -> lookup h' c = lookup h c.
+
+Lemma keeps_refl K h : keeps K h h.
+Proof. split; [lia|]. reflexivity. Qed.
+
+Lemma keeps_trans K h1 h2 h3 : keeps K h1 h2 -> keeps K h2 h3 -> keeps K h1 h3.
+Proof.
+  intros [L1 A1] [L2 A2]. split; [lia|]. intros c Hc Hk.
+  rewrite A2 by first [lia | assumption]. apply A1; assumption.
+Qed.
+
+Lemma keeps_ext K h h' : ext h h' -> keeps K h h'.
+Proof.
+  intros He. split; [apply ext_length, He|]. intros c Hc _. apply ext_lookup; assumption.
+Qed.
+
+Lemma keeps_store K h c o : In c K -> keeps K h (store h c o).
+Proof.
+  intros Hin. split; [rewrite length_store; lia|]. intros x Hx Hk.
+  apply lookup_store_other. intros ->. tauto.
+Qed.
+
+Lemma keeps_weaken K K' h h' : incl K K' -> keeps K h h' -> keeps K' h h'.
+Proof. intros Hi [L A]. split; [exact L|]. intros c Hc Hk. apply A; [exact Hc|]. intros Hin. apply Hk, Hi, Hin. Qed.
+
+(* v is untouched by stores at K *)
+Definition steady (K : list nat) (h : heap) (v : val) : Prop :=
+  exists lo hi, frozen lo hi h v /\ (hi <= length h)%nat
+                /\ forall c, In c K -> (c < lo \/ hi <= c)%nat.
+
+Lemma steady_keeps K h h' v :
+  steady K h v -> keeps K h h' ->
+  steady K h' v /\ forall f, abs_val f h' v = abs_val f h v.
+Proof.
+  intros (lo & hi & Fz & Hhi & HK) [L A].
+  assert (Hag : forall x, reach h v x -> lookup h' x = lookup h x).
+  { intros x Hx. pose proof (Fz x Hx). apply A; [lia|]. intros Hin. specialize (HK x Hin). lia. }
+  split.
+  - exists lo, hi. split; [|split; [lia|exact HK]].
+    intros x Hx. apply Fz. eapply reach_agree; eauto.
+  - intros f. apply abs_agree. exact Hag.
+Qed.
+
+Lemma steady_list_keeps K h h' l :
+  Forall (steady K h) l -> keeps K h h' ->
+  Forall (steady K h') l /\ forall f, abs_list f h' l = abs_list f h l.
+Proof.
+  intros F Kp. split.
+  - eapply Forall_impl; [|exact F]. intros v S. apply (steady_keeps K h h' v S Kp).
+  - intros f. unfold abs_list. apply omap_ext_in. intros v Hv.
+    rewrite Forall_forall in F. apply (steady_keeps K h h' v (F v Hv) Kp).
+Qed.
+
+Lemma steady_nonref K h v : (forall l, v <> VRef l) -> steady K h v.
+Proof.
+  intros Hn. exists O, O. split; [|split; [lia|intros; lia]].
+  intros x R. exfalso. inversion R; subst; eapply Hn; reflexivity.
+Qed.
+
+(* a value whose abstraction is defined in hb, seen from a later heap *)
+Lemma steady_old K hb h v f t :
+  abs_val f hb v = Some t -> ext hb h -> (forall c, In c K -> (length hb <= c)%nat) ->
+  steady K h v.
+Proof.
+  intros A He HK. exists O, (length hb). split; [|split].
+  - intros x R. pose proof (abs_closed f hb v t A) as C.
+    apply C. eapply reach_agree; [|exact R]. intros y Hy. apply ext_lookup; [exact He|].
+    apply (C y Hy).
+  - apply ext_length, He.
+  - intros c Hc. right. apply HK, Hc.
+Qed.
+
+Lemma steady_child K h l name ws al kl items c :
+  steady K h (VRef l) -> lookup h l = Some (OTag name ws al kl) ->
+  lookup h kl = Some (OList items) -> In c items -> steady K h c.
+Proof.
+  intros (lo & hi & Fz & Hhi & HK) El Ek Hc. exists lo, hi. split; [|split; assumption].
+  intros x R. apply Fz. eapply reach_child; eauto.
+Qed.
+
+(* ---- a tag object with its attribute map and child list ---------------------------- *)
+Definition tagv (h : heap) (l : loc) (name : str) (ws : bool) (al : loc) (a : attrs)
+           (kl : loc) (items : list val) : Prop :=
+  lookup h l = Some (OTag name ws al kl) /\ lookup h al = Some (OAttrs a)
+  /\ lookup h kl = Some (OList items).
+
+Lemma tagv_abs h l name ws al a kl items f kids :
+  tagv h l name ws al a kl items -> abs_list f h items = Some kids ->
+  abs_val (S f) h (VRef l) = Some (TagN name ws a kids).
+Proof.
+  intros (E1 & E2 & E3) A. rewrite abs_val_S, E1, E2, E3. unfold abs_list in A. rewrite A. reflexivity.
+Qed.
+
+Lemma abs_tagv f h l name ws a kids :
+  abs_val f h (VRef l) = Some (TagN name ws a kids) ->
+  exists al kl items f', tagv h l name ws al a kl items /\ abs_list f' h items = Some kids.
+Proof.
+  destruct f as [|f]; [discriminate|]. rewrite abs_val_S.
+  destruct (lookup h l) as [[n w al kl| | |p|sh exp]|] eqn:El; try discriminate.
+  - destruct (lookup h al) as [[|a0| | |]|] eqn:Ea; try discriminate.
+    destruct (lookup h kl) as [[| |items| |]|] eqn:Ek; try discriminate.
+    destruct (omap (abs_val f h) items) as [ks|] eqn:E; [|discriminate].
+    intros H. inversion H; subst. exists al, kl, items, f. repeat split; assumption.
+  - destruct (omap (abs_val f h) exp); discriminate.
+Qed.
+
+Lemma tagv_keeps K h h' l name ws al a kl items :
+  tagv h l name ws al a kl items -> keeps K h h' ->
+  ~ In l K -> ~ In al K -> ~ In kl K -> tagv h' l name ws al a kl items.
+Proof.
+  intros (E1 & E2 & E3) [L A] N1 N2 N3. repeat split.
+  - rewrite A; [exact E1|eapply lookup_lt; eauto|exact N1].
+  - rewrite A; [exact E2|eapply lookup_lt; eauto|exact N2].
+  - rewrite A; [exact E3|eapply lookup_lt; eauto|exact N3].
+Qed.
+
+Lemma tagv_store_own h l name ws al a kl items items' :
+  tagv h l name ws al a kl items ->
+  tagv (store h kl (OList items')) l name ws al a kl items'.
+Proof.
+  intros (E1 & E2 & E3). repeat split.
+  - rewrite lookup_store_other; [exact E1|]. intros ->. congruence.
+  - rewrite lookup_store_other; [exact E2|]. intros ->. congruence.
+  - apply lookup_store_same. eapply lookup_lt; eauto.
+Qed.
+
+Lemma kids_of_tagv h l name ws al a kl items :
+  tagv h l name ws al a kl items -> kids_of h l = Some (kl, items).
+Proof. intros (E1 & _ & E3). unfold kids_of. rewrite E1, E3. reflexivity. Qed.
+
+Lemma kids_update_tagv h l name ws al a kl items g :
+  tagv h l name ws al a kl items -> kids_update h l g = Some (store h kl (OList (g items))).
+Proof. intros T. unfold kids_update. rewrite (kids_of_tagv _ _ _ _ _ _ _ _ T). reflexivity. Qed.
+
+Lemma new_tag_tagv h name ws a items h' l :
+  new_tag h name ws a items = (h', l) ->
+  ext h h' /\ l = S (S (length h)) /\ length h' = S (S (S (length h)))
+  /\ tagv h' l name ws (length h) a (S (length h)) items.
+Proof.
+  intros H. apply new_tag_inv in H as [-> ->].
+  destruct (lookup3 h (OAttrs a) (OList items) (OTag name ws (length h) (S (length h))))
+    as (L1 & L2 & L3).
+  split; [apply ext_app|]. split; [reflexivity|]. split.
+  - rewrite app_length. cbn [length]. lia.
+  - repeat split; assumption.
+Qed.
+
+Lemma copy_tag_tagv h c name ws al a kl items h' cp :
+  tagv h c name ws al a kl items -> copy_tag h c = Some (h', cp) ->
+  ext h h' /\ cp = S (S (length h)) /\ length h' = S (S (S (length h)))
+  /\ tagv h' cp name ws (length h) a (S (length h)) items.
+Proof.
+  intros (E1 & E2 & E3) H.
+  apply copy_tag_inv in H as (n0 & w0 & al0 & kl0 & a0 & its0 & F1 & F2 & F3 & -> & ->).
+  rewrite E1 in F1. inversion F1; subst n0 w0 al0 kl0.
+  rewrite E2 in F2. inversion F2; subst a0. rewrite E3 in F3. inversion F3; subst its0.
+  destruct (lookup3 h (OAttrs a) (OList items) (OTag name ws (length h) (S (length h))))
+    as (L1 & L2 & L3).
+  split; [apply ext_app|]. split; [reflexivity|]. split.
+  - rewrite app_length. cbn [length]. lia.
+  - repeat split; assumption.
+Qed.
+
+(* a new tag whose children are values: its graph is the three new objects *)
+Lemma tagv_leaf_frozen h l name ws al a kl items :
+  tagv h l name ws al a kl items -> (forall c, In c items -> forall l', c <> VRef l') ->
+  forall lo hi, (lo <= l < hi)%nat -> (lo <= al < hi)%nat -> (lo <= kl < hi)%nat ->
+  frozen lo hi h (VRef l).
+Proof.
+  intros (E1 & E2 & E3) Hn lo hi B1 B2 B3 x R.
+  apply reach_inv in R as [->|[(n0 & w0 & a0 & k0 & E0 & R)|[(its & c & E0 & _)|(sh & ex & c & E0 & _)]]];
+    try (rewrite E1 in E0; discriminate); [exact B1|].
+  rewrite E1 in E0. inversion E0; subst.
+  destruct R as [->|[->|(its & c & Ei & Hc & R)]]; [exact B2|exact B3|].
+  rewrite E3 in Ei. inversion Ei; subst its. exfalso.
+  inversion R; subst; eapply (Hn _ Hc); reflexivity.
+Qed.
+
+Definition val_node (v : val) : node N :=
+  match v with VText s => Text s | VHtml s => Html s | VRepr s => Repr s | VRef _ => Text [] end.
+
+Lemma abs_list_values h items :
+  (forall c, In c items -> forall l', c <> VRef l') ->
+  abs_list 1 h items = Some (map val_node items).
+Proof.
+  induction items as [|c items IH]; intros Hn; [reflexivity|].
+  unfold abs_list in *. cbn [omap map].
+  rewrite IH by (intros c' Hc'; apply Hn; right; exact Hc').
+  destruct c as [s|s|s|l]; try reflexivity. exfalso. eapply (Hn (VRef l)); [left|]; reflexivity.
+Qed.
+
+(* ---- find_head looks at the same things as its pure reading ------------------------- *)
+Lemma find_head_pure_eq f h items : forall kids i,
+  abs_list f h items = Some kids -> find_head h items i = find_head_pure kids i.
+Proof.
+  induction items as [|c items IH]; intros kids i A; unfold abs_list in A; cbn [omap] in A.
+  - inversion A. reflexivity.
+  - destruct (abs_val f h c) as [t|] eqn:Ec; [|discriminate].
+    destruct (omap (abs_val f h) items) as [ks|] eqn:Ei; [|discriminate].
+    inversion A; subst kids. cbn [find_head find_head_pure].
+    destruct f as [|f]; [discriminate|]. rewrite abs_val_S in Ec.
+    destruct c as [s|s|s|l]; try (inversion Ec; subst t; apply IH; exact Ei).
+    destruct (lookup h l) as [[n w al kl| | |p|sh exp]|]; try discriminate.
+    + destruct (lookup h al) as [[|a0| | |]|]; try discriminate.
+      destruct (lookup h kl) as [[| |its| |]|]; try discriminate.
+      destruct (omap (abs_val f h) its); [|discriminate]. inversion Ec; subst t.
+      destruct (str_eqb n s_head); [reflexivity|]. apply IH. exact Ei.
+    + inversion Ec; subst t. apply IH. exact Ei.
+    + destruct (omap (abs_val f h) exp); [|discriminate]. inversion Ec; subst t. apply IH. exact Ei.
+Qed.
+
+Lemma omap_nth {T U} (f : T -> option U) l r i x :
+  omap f l = Some r -> nth_error l i = Some x ->
+  exists y, f x = Some y /\ nth_error r i = Some y.
+Proof.
+  revert r i. induction l as [|a l IH]; intros r i H Hn; [destruct i; discriminate|].
+  cbn [omap] in H. destruct (f a) as [b|] eqn:Ea; [|discriminate].
+  destruct (omap f l) as [bs|] eqn:El; [|discriminate]. inversion H; subst r.
+  destruct i as [|i]; cbn [nth_error] in *.
+  - inversion Hn; subst. eauto.
+  - eapply IH; eauto.
+Qed.
+
+Lemma omap_set_slice {T U} (f : T -> option U) l r i x y :
+  omap f l = Some r -> (i < length l)%nat -> f x = Some y ->
+  omap f (firstn i l ++ [x] ++ skipn (S i) l) = Some (firstn i r ++ [y] ++ skipn (S i) r).
+Proof.
+  revert r i. induction l as [|a l IH]; intros r i H Hi Hx; [cbn in Hi; lia|].
+  cbn [omap] in H. destruct (f a) as [b|] eqn:Ea; [|discriminate].
+  destruct (omap f l) as [bs|] eqn:El; [|discriminate]. inversion H; subst r.
+  destruct i as [|i].
+  - cbn [firstn skipn app omap]. rewrite Hx, El. reflexivity.
+  - cbn [length] in Hi. assert (Hi' : (i < length l)%nat) by lia.
+    pose proof (IH bs i eq_refl Hi' Hx) as IH'.
+    change (firstn (S i) (a :: l) ++ [x] ++ skipn (S (S i)) (a :: l))
+      with (a :: (firstn i l ++ [x] ++ skipn (S i) l)).
+    cbn [omap]. rewrite Ea, IH'. reflexivity.
+Qed.
+
+(* ---- allocating a tree yields a value that denotes it -------------------------------- *)
+Lemma frozen_weaken lo hi lo' hi' h v :
+  frozen lo hi h v -> (lo' <= lo)%nat -> (hi <= hi')%nat -> frozen lo' hi' h v.
+Proof. intros F H1 H2 x R. specialize (F x R). lia. Qed.
+
+Lemma frozen_ext lo hi h h' v :
+  frozen lo hi h v -> (hi <= length h)%nat -> ext h h' ->
+  frozen lo hi h' v /\ forall f, abs_val f h' v = abs_val f h v.
+Proof.
+  intros F Hhi He.
+  destruct (steady_keeps [] h h' v) as [(lo' & hi' & _) A].
+  - exists lo, hi. split; [exact F|]. split; [exact Hhi|]. intros c [].
+  - apply keeps_ext, He.
+  - split; [|exact A]. intros x R. apply F. eapply reach_agree; [|exact R].
+    intros y Hy. apply ext_lookup; [exact He|]. specialize (F y Hy). lia.
+Qed.
+
+Definition alloc_ok (h : heap) (t : node N) : Prop :=
+  ext h (fst (alloc_node h t))
+  /\ frozen (length h) (length (fst (alloc_node h t))) (fst (alloc_node h t)) (snd (alloc_node h t))
+  /\ exists f, abs_val f (fst (alloc_node h t)) (snd (alloc_node h t)) = Some t.
+
+Lemma alloc_go_spec (kids : list (node N)) :
+  Forall (fun t => no_custom t = true -> forall h, alloc_ok h t) kids ->
+  forallb no_custom kids = true ->
+  forall h,
+    let go := fix go (h : heap) (ks : list (node N)) : heap * list val :=
+                match ks with
+                | [] => (h, [])
+                | k :: ks' => let (h1, v) := alloc_node h k in
+                              let (h2, vs) := go h1 ks' in (h2, v :: vs)
+                end in
+    ext h (fst (go h kids))
+    /\ Forall (frozen (length h) (length (fst (go h kids))) (fst (go h kids))) (snd (go h kids))
+    /\ exists f, abs_list f (fst (go h kids)) (snd (go h kids)) = Some kids.
+Proof.
+  intros IH. induction IH as [|k ks Hk _ IHks]; intros NC h go.
+  - cbn. split; [apply ext_refl|]. split; [constructor|]. exists 1%nat. reflexivity.
+  - cbn [forallb] in NC. apply andb_true_iff in NC as [NC1 NC2].
+    cbn [go]. destruct (Hk NC1 h) as (E1 & F1 & f1 & A1).
+    destruct (alloc_node h k) as [h1 v] eqn:Ea. cbn [fst snd] in E1, F1, A1.
+    destruct (IHks NC2 h1) as (E2 & F2 & f2 & A2). fold go in E2, F2, A2.
+    destruct (go h1 ks) as [h2 vs] eqn:Eg. cbn [fst snd] in *.
+    pose proof (ext_length _ _ E1) as L1. pose proof (ext_length _ _ E2) as L2.
+    destruct (frozen_ext _ _ _ _ _ F1 (Nat.le_refl _) E2) as [F1' A1'].
+    split; [eapply ext_trans; eauto|]. split.
+    + constructor.
+      * eapply frozen_weaken; [exact F1'|lia|lia].
+      * eapply Forall_impl; [|exact F2]. intros w Fw. eapply frozen_weaken; [exact Fw|lia|lia].
+    + exists (Nat.max f1 f2). unfold abs_list. cbn [omap].
+      rewrite (abs_mono f1 (Nat.max f1 f2) h2 v k (Nat.le_max_l _ _)) by (rewrite A1'; exact A1).
+      fold (abs_list (Nat.max f1 f2) h2 vs).
+      rewrite (abs_list_mono f2 (Nat.max f1 f2) h2 vs ks (Nat.le_max_r _ _) A2). reflexivity.
+Qed.
+
+Lemma alloc_node_spec t : no_custom t = true -> forall h, alloc_ok h t.
+Proof.
+  induction t as [s|s|s|m|name ws a kids IH|sh exp _] using node_ind'; intros NC h;
+    try discriminate.
+  - split; [apply ext_refl|]. split; [|exists 1%nat; reflexivity].
+    intros x R. inversion R.
+  - split; [apply ext_refl|]. split; [|exists 1%nat; reflexivity].
+    intros x R. inversion R.
+  - split; [apply ext_refl|]. split; [|exists 1%nat; reflexivity].
+    intros x R. inversion R.
+  - unfold alloc_ok. cbn [alloc_node alloc fst snd].
+    assert (L : lookup (h ++ [OMeta m]) (length h) = Some (OMeta m)) by apply lookup_new.
+    split; [apply ext_app|]. split.
+    + intros x R. rewrite app_length. cbn [length].
+      apply reach_inv in R as [->|[(n0 & w0 & a0 & k0 & E0 & _)|[(i0 & c1 & E0 & _)|(s0 & e0 & c1 & E0 & _)]]];
+        try (rewrite L in E0; discriminate). lia.
+    + exists 1%nat. rewrite abs_val_S, L. reflexivity.
+  - cbn [no_custom] in NC. unfold alloc_ok. cbn [alloc_node].
+    pose proof (alloc_go_spec kids IH NC h) as G. cbn zeta in G.
+    set (go := fix go (h : heap) (ks : list (node N)) : heap * list val :=
+                 match ks with
+                 | [] => (h, [])
+                 | k :: ks' => let (h1, v) := alloc_node h k in
+                               let (h2, vs) := go h1 ks' in (h2, v :: vs)
+                 end) in *.
+    destruct G as (E1 & F1 & f1 & A1). destruct (go h kids) as [h1 vs]. cbn [fst snd] in *.
+    destruct (new_tag h1 name ws a vs) as [h2 l] eqn:En. cbn [fst snd].
+    destruct (new_tag_tagv _ _ _ _ _ _ _ En) as (E2 & -> & Len2 & T).
+    pose proof (ext_length _ _ E1) as L1.
+    destruct (steady_list_keeps [] h1 h2 vs) as [S2 A2].
+    { eapply Forall_impl; [|exact F1]. intros w Fw. exists (length h), (length h1).
+      split; [exact Fw|]. split; [lia|]. intros c []. }
+    { apply keeps_ext, E2. }
+    split; [eapply ext_trans; eauto|]. split.
+    + intros x R. destruct T as (T1 & T2 & T3).
+      apply reach_inv in R as [->|[(n0 & w0 & a0 & k0 & E0 & R)|[(its & c & E0 & _)|(sh & ex & c & E0 & _)]]];
+        try (rewrite T1 in E0; discriminate); [lia|].
+      rewrite T1 in E0. inversion E0; subst.
+      destruct R as [->|[->|(its & c & Ei & Hc & R)]]; [lia|lia|].
+      rewrite T3 in Ei. inversion Ei; subst its.
+      rewrite Forall_forall in S2. destruct (S2 c Hc) as (lo & hi & Fz & _).
+      rewrite Forall_forall in F1.
+      assert (Fc : frozen (length h) (length h1) h2 c).
+      { intros y Ry. apply (F1 c Hc). eapply reach_agree; [|exact Ry].
+        intros z Hz. apply ext_lookup; [exact E2|]. specialize (F1 c Hc z Hz). lia. }
+      specialize (Fc x R). lia.
+    + exists (S f1). eapply tagv_abs; [exact T|]. rewrite A2. exact A1.
+Qed.
+
+Lemma alloc_nodes_spec ts : forallb no_custom ts = true -> forall h,
+  ext h (fst (alloc_nodes h ts))
+  /\ Forall (frozen (length h) (length (fst (alloc_nodes h ts))) (fst (alloc_nodes h ts)))
+            (snd (alloc_nodes h ts))
+  /\ exists f, abs_list f (fst (alloc_nodes h ts)) (snd (alloc_nodes h ts)) = Some ts.
+Proof.
+  induction ts as [|t ts IH]; intros NC h.
+  - cbn. split; [apply ext_refl|]. split; [constructor|]. exists 1%nat. reflexivity.
+  - cbn [forallb] in NC. apply andb_true_iff in NC as [NC1 NC2].
+    cbn [alloc_nodes]. destruct (alloc_node_spec t NC1 h) as (E1 & F1 & f1 & A1).
+    destruct (alloc_node h t) as [h1 v]. cbn [fst snd] in E1, F1, A1.
+    destruct (IH NC2 h1) as (E2 & F2 & f2 & A2).
+    destruct (alloc_nodes h1 ts) as [h2 vs]. cbn [fst snd] in *.
+    pose proof (ext_length _ _ E1) as L1. pose proof (ext_length _ _ E2) as L2.
+    destruct (frozen_ext _ _ _ _ _ F1 (Nat.le_refl _) E2) as [F1' A1'].
+    split; [eapply ext_trans; eauto|]. split.
+    + constructor.
+      * eapply frozen_weaken; [exact F1'|lia|lia].
+      * eapply Forall_impl; [|exact F2]. intros w Fw. eapply frozen_weaken; [exact Fw|lia|lia].
+    + exists (Nat.max f1 f2). unfold abs_list. cbn [omap].
+      rewrite (abs_mono f1 (Nat.max f1 f2) h2 v t (Nat.le_max_l _ _)) by (rewrite A1'; exact A1).
+      fold (abs_list (Nat.max f1 f2) h2 vs).
+      rewrite (abs_list_mono f2 (Nat.max f1 f2) h2 vs ts (Nat.le_max_r _ _) A2). reflexivity.
+Qed.
+
+Lemma abs_list_cons f h v l :
+  abs_list f h (v :: l)
+  = match abs_val f h v with
+    | Some y => match abs_list f h l with Some ys => Some (y :: ys) | None => None end
+    | None => None
+    end.
+Proof. reflexivity. Qed.
+
+Lemma abs_list_app f h l1 l2 :
+  abs_list f h (l1 ++ l2)
+  = match abs_list f h l1, abs_list f h l2 with Some a, Some b => Some (a ++ b) | _, _ => None end.
+Proof. apply omap_app. Qed.
+
+Lemma abs_list_nil f h : abs_list f h [] = Some [].
+Proof. reflexivity. Qed.
+
+Section DocRefine.
+  Variable upd : nat -> attrs -> attrs.
+  Variable mk : nat -> attrs.
+  Variable resolve : list N -> list N.
+  Variable dep_script : list N -> str.
+  Variable dep_tags : nat -> N -> list (node N).
+  (* the tags a dependency contributes hold no tagifiable object *)
+  Hypothesis Hdt : forall k p, forallb no_custom (dep_tags k p) = true.
+
+  Lemma dep_tags_no_custom k deps : forallb no_custom (flat_map (dep_tags k) deps) = true.
+  Proof.
+    induction deps as [|d ds IH]; [reflexivity|]. cbn [flat_map]. rewrite forallb_app, Hdt, IH.
+    reflexivity.
+  Qed.
+
+  Lemma tagv_distinct h l name ws al a kl items : tagv h l name ws al a kl items -> l <> kl /\ al <> kl.
+  Proof. intros (E1 & E2 & E3). split; intros ->; congruence. Qed.
+
+  Lemma ensure_head_refines hb h res name ws al a R items f kids h2 hi :
+    ext hb h -> (length hb <= R)%nat ->
+    tagv h res name ws al a R items ->
+    abs_list f hb items = Some kids ->
+    ensure_head h res = Some (h2, hi) ->
+    exists items1 f1,
+      keeps [R] h h2 /\ ext hb h2 /\ tagv h2 res name ws al a R items1
+      /\ abs_list f1 h2 items1
+         = Some (fst (match find_head_pure kids 0 with
+                      | Some i => (kids, i) | None => (head_tag :: kids, O) end))
+      /\ hi = snd (match find_head_pure kids 0 with
+                   | Some i => (kids, i) | None => (head_tag :: kids, O) end)
+      /\ Forall (steady [R; S (length h2)] h2) items1.
+  Proof.
+    intros Hb HR T A H. unfold ensure_head in H.
+    rewrite (kids_of_tagv _ _ _ _ _ _ _ _ T) in H.
+    pose proof (abs_list_ext f hb h items kids Hb A) as Ah.
+    rewrite (find_head_pure_eq f h items kids 0 Ah) in H.
+    assert (Old : forall h', ext hb h' -> (length hb <= S (length h'))%nat ->
+                             Forall (steady [R; S (length h')] h') items).
+    { intros h' He Hl. apply Forall_forall. intros v Hv.
+      destruct (omap_in _ _ _ _ A Hv) as [t Ht].
+      eapply steady_old; [exact Ht|exact He|]. intros c [Eq|[Eq|[]]]; lia. }
+    pose proof (ext_length _ _ Hb) as Lb.
+    destruct (find_head_pure kids 0) as [i|].
+    - inversion H; subst h2 hi. exists items, f. cbn [fst snd].
+      split; [apply keeps_refl|]. split; [exact Hb|]. split; [exact T|]. split; [exact Ah|].
+      split; [reflexivity|]. apply Old; [exact Hb|lia].
+    - destruct (new_tag h s_head true [] []) as [h1 hd] eqn:En.
+      destruct (new_tag_tagv _ _ _ _ _ _ _ En) as (E1 & -> & Len1 & Thd).
+      pose proof (lookup_lt _ _ _ (proj2 (proj2 T))) as RL.
+      destruct (tagv_distinct _ _ _ _ _ _ _ _ T) as [D1 D2].
+      assert (T1 : tagv h1 res name ws al a R items).
+      { destruct T as (P1 & P2 & P3). repeat split; eapply ext_lookup_some; eauto. }
+      rewrite (kids_update_tagv _ _ _ _ _ _ _ _ _ T1) in H. inversion H; subst h2 hi. clear H.
+      set (h2 := store h1 R (OList (VRef (S (S (length h))) :: items))).
+      assert (K12 : keeps [R] h1 h2) by (apply keeps_store; left; reflexivity).
+      assert (Len2 : length h2 = length h1) by apply length_store.
+      assert (E2 : ext hb h2). { apply ext_store; [eapply ext_trans; eauto|exact HR]. }
+      assert (Thd2 : tagv h2 (S (S (length h))) s_head true (length h) [] (S (length h)) []).
+      { eapply tagv_keeps; [exact Thd|exact K12| | |]; intros [Eq|[]]; lia. }
+      exists (VRef (S (S (length h))) :: items), (S f). cbn [fst snd].
+      split; [eapply keeps_trans; [apply keeps_ext, E1|exact K12]|].
+      split; [exact E2|]. split; [exact (tagv_store_own _ _ _ _ _ _ _ _ _ T1)|]. split; [|split; [reflexivity|]].
+      + unfold abs_list. cbn [omap].
+        rewrite (tagv_abs _ _ _ _ _ _ _ _ f [] Thd2 eq_refl).
+        fold (abs_list (S f) h2 items).
+        rewrite (abs_list_mono f (S f) h2 items kids) by
+            first [lia | eapply abs_list_ext; [exact E2|exact A]].
+        reflexivity.
+      + constructor; [|apply Old; [exact E2|lia]].
+        exists (length h), (length h2). split; [|split; [lia|]].
+        * eapply tagv_leaf_frozen; [exact Thd2|intros c []| | |]; lia.
+        * intros c [Eq|[Eq|[]]]; lia.
+  Qed.
+
+  Lemma copy_head_refines hb h2 res name ws al a R items1 f1 kids1 hi h3 head :
+    ext hb h2 -> (length hb <= R)%nat ->
+    tagv h2 res name ws al a R items1 ->
+    abs_list f1 h2 items1 = Some kids1 ->
+    Forall (steady [R; S (length h2)] h2) items1 ->
+    copy_head h2 res hi = Some (h3, head) ->
+    exists hn hws ha hk hitems fh,
+      nth_error kids1 hi = Some (TagN hn hws ha hk)
+      /\ keeps [R] h2 h3 /\ ext hb h3 /\ length h3 = S (S (S (length h2)))
+      /\ head = S (S (length h2))
+      /\ tagv h3 res name ws al a R (set_slice hi [VRef head] items1)
+      /\ tagv h3 head hn hws (length h2) ha (S (length h2)) hitems
+      /\ abs_list f1 h3 items1 = Some kids1 /\ (hi < length items1)%nat
+      /\ Forall (steady [R; S (length h2)] h3) items1
+      /\ Forall (steady [R; S (length h2)] h3) hitems /\ abs_list fh h3 hitems = Some hk.
+  Proof.
+    intros Hb HR T A St H. unfold copy_head in H.
+    rewrite (kids_of_tagv _ _ _ _ _ _ _ _ T) in H.
+    destruct (nth_error items1 hi) as [[| | |c]|] eqn:En; try discriminate.
+    destruct (copy_tag h2 c) as [[h3' hd]|] eqn:Ec; [|discriminate].
+    pose proof Ec as Ec'.
+    apply copy_tag_inv in Ec' as (hn & hws & cal & ckl & ha & hitems & F1 & F2 & F3 & _ & _).
+    assert (Tc : tagv h2 c hn hws cal ha ckl hitems) by (repeat split; assumption).
+    destruct (copy_tag_tagv _ _ _ _ _ _ _ _ _ _ Tc Ec) as (E3 & -> & Len3 & Thd).
+    pose proof (lookup_lt _ _ _ (proj2 (proj2 T))) as RL.
+    assert (T3' : tagv h3' res name ws al a R items1).
+    { destruct T as (P1 & P2 & P3). repeat split; eapply ext_lookup_some; eauto. }
+    rewrite (kids_update_tagv _ _ _ _ _ _ _ _ _ T3') in H. inversion H; subst h3 head. clear H.
+    set (head := S (S (length h2))).
+    set (h3 := store h3' R (OList (set_slice hi [VRef head] items1))).
+    assert (K : keeps [R] h2 h3).
+    { eapply keeps_trans; [apply keeps_ext, E3|apply keeps_store; left; reflexivity]. }
+    assert (K2 : keeps [R; S (length h2)] h2 h3).
+    { eapply keeps_weaken; [|exact K]. intros z [<-|[]]. left. reflexivity. }
+    destruct (omap_nth _ _ _ _ _ A En) as (y & Ay & Ny).
+    destruct f1 as [|f1']; [discriminate|]. pose proof Ay as Ay'.
+    rewrite abs_val_S, F1, F2, F3 in Ay'.
+    destruct (omap (abs_val f1' h2) hitems) as [hk|] eqn:Ehk; [|discriminate].
+    inversion Ay'; subst y. clear Ay'.
+    assert (Sc : steady [R; S (length h2)] h2 (VRef c)).
+    { rewrite Forall_forall in St. apply St. eapply nth_error_In; eauto. }
+    assert (Sh : Forall (steady [R; S (length h2)] h2) hitems).
+    { apply Forall_forall. intros v Hv. eapply steady_child; eauto. }
+    destruct (steady_list_keeps _ _ _ _ St K2) as [St3 A3].
+    destruct (steady_list_keeps _ _ _ _ Sh K2) as [Sh3 Ah3].
+    exists hn, hws, ha, hk, hitems, f1'.
+    split; [exact Ny|]. split; [exact K|].
+    split; [apply ext_store; [eapply ext_trans; eauto|exact HR]|].
+    split; [unfold h3; rewrite length_store; exact Len3|]. split; [reflexivity|].
+    split; [exact (tagv_store_own _ _ _ _ _ _ _ _ _ T3')|]. split.
+    { eapply (tagv_keeps [R]); [exact Thd|apply keeps_store; left; reflexivity| | |];
+        intros [Eq|[]]; unfold head in *; lia. }
+    split; [rewrite A3; exact A|]. split; [apply nth_error_Some; congruence|].
+    split; [exact St3|]. split; [exact Sh3|]. rewrite Ah3. exact Ehk.
+  Qed.
+
+  Lemma fill_head_refines fuel k hb h3 head x hn hws hal ha R H hitems fh hk f name ws a kids h' :
+    ext hb h3 -> (length hb <= H)%nat -> (R < H)%nat ->
+    tagv h3 head hn hws hal ha H hitems ->
+    Forall (steady [R; H] h3) hitems -> abs_list fh h3 hitems = Some hk ->
+    abs_val f hb (VRef x) = Some (TagN name ws a kids) ->
+    fill_head resolve dep_script dep_tags fuel k h3 head x = Some h' ->
+    exists hitems' fh',
+      keeps [H] h3 h' /\ ext hb h'
+      /\ tagv h' head hn hws hal ha H hitems'
+      /\ abs_list fh' h' hitems'
+         = Some (meta_tag :: hk
+                   ++ (match resolve (flat_map deps_of kids) with
+                       | [] => [] | _ :: _ => [script_tag dep_script (resolve (flat_map deps_of kids))] end)
+                   ++ flat_map (dep_tags k) (resolve (flat_map deps_of kids))).
+  Proof.
+    intros Hb HH HRH T St Ah Ax Hf. unfold fill_head in Hf.
+    assert (kw : forall h1 h2, keeps [H] h1 h2 -> keeps [R; H] h1 h2).
+    { intros h1 h2. apply keeps_weaken. intros z [<-|[]]. right. left. reflexivity. }
+    pose proof (lookup_lt _ _ _ (proj2 (proj2 T))) as HL.
+    destruct (tagv_distinct _ _ _ _ _ _ _ _ T) as [D1 D2].
+    pose proof (lookup_lt _ _ _ (proj1 T)) as HdL.
+    pose proof (lookup_lt _ _ _ (proj1 (proj2 T))) as HaL.
+    (* the meta tag *)
+    destruct (new_tag h3 s_meta true [(s_charset, AStr s_utf8)] []) as [h4 m] eqn:En.
+    destruct (new_tag_tagv _ _ _ _ _ _ _ En) as (E4 & -> & Len4 & Tm).
+    assert (T4 : tagv h4 head hn hws hal ha H hitems).
+    { destruct T as (P1 & P2 & P3). repeat split; eapply ext_lookup_some; eauto. }
+    rewrite (kids_update_tagv _ _ _ _ _ _ _ _ _ T4) in Hf.
+    remember (VRef (S (S (length h3)))) as mv eqn:Emv.
+    set (h5 := store h4 H (OList (mv :: hitems))) in *.
+    assert (K45 : keeps [H] h4 h5) by (apply keeps_store; left; reflexivity).
+    assert (K35 : keeps [H] h3 h5).
+    { eapply keeps_trans; [apply keeps_ext, E4|exact K45]. }
+    assert (E5 : ext hb h5). { apply ext_store; [eapply ext_trans; eauto|exact HH]. }
+    assert (Len5 : length h5 = length h4) by apply length_store.
+    assert (T5 : tagv h5 head hn hws hal ha H (mv :: hitems)) by exact (tagv_store_own _ _ _ _ _ _ _ _ _ T4).
+    assert (Sm4 : steady [R; H] h4 mv).
+    { exists (length h3), (length h4). split; [|split; [lia|]].
+      - rewrite Emv. eapply tagv_leaf_frozen; [exact Tm|intros c []| | |]; lia.
+      - intros c [Eq|[Eq|[]]]; lia. }
+    assert (Am4 : abs_val 1 h4 mv = Some meta_tag).
+    { rewrite Emv. eapply tagv_abs; [exact Tm|reflexivity]. }
+    destruct (steady_keeps _ _ _ _ Sm4 (kw _ _ K45)) as [Sm5 Am5].
+    destruct (steady_list_keeps _ _ _ _ St (kw _ _ K35)) as [St5 Ah5].
+    (* deps = x.get_dependencies() *)
+    destruct (get_deps resolve fuel h5 x) as [deps|] eqn:Eg; [|discriminate].
+    assert (Hdeps : deps = resolve (flat_map deps_of kids)).
+    { unfold get_deps, abs_root, abs in Eg.
+      pose proof (abs_ext f hb h5 _ _ E5 Ax) as Ax5.
+      destruct (abs_tag_inv _ _ _ _ _ _ _ Ax5) as (xal & xkl & Lx). rewrite Lx in Eg.
+      destruct (abs_val fuel h5 (VRef x)) as [t0|] eqn:E0; [|discriminate].
+      rewrite (abs_det _ _ _ _ _ _ E0 Ax5) in Eg. cbn in Eg. inversion Eg. reflexivity. }
+    rewrite <- Hdeps.
+    (* the script tag, when there are dependencies *)
+    assert (Mid : forall h6,
+               match deps with
+               | [] => Some h5
+               | _ :: _ =>
+                 let (h3', s) := new_tag h5 s_script true [(s_type, AStr s_htmldeps)]
+                                         [VText (dep_script deps)] in
+                 kids_update h3' head (fun its => its ++ [VRef s])
+               end = Some h6 ->
+               exists its6 f6,
+                 keeps [H] h5 h6 /\ ext hb h6 /\ tagv h6 head hn hws hal ha H its6
+                 /\ Forall (steady [R; H] h6) its6
+                 /\ abs_list f6 h6 its6
+                    = Some (meta_tag :: hk ++ match deps with [] => [] | _ :: _ => [script_tag dep_script deps] end)).
+    { intros h6 M. destruct deps as [|d ds].
+      - inversion M; subst h6. exists (mv :: hitems), (S fh).
+        split; [apply keeps_refl|]. split; [exact E5|]. split; [exact T5|].
+        split; [constructor; assumption|].
+        rewrite app_nil_r, abs_list_cons.
+        rewrite (abs_mono 1 (S fh) h5 mv meta_tag) by first [lia | rewrite Am5; exact Am4].
+        rewrite (abs_list_mono fh (S fh) h5 hitems hk) by first [lia | rewrite Ah5; exact Ah].
+        reflexivity.
+      - destruct (new_tag h5 s_script true [(s_type, AStr s_htmldeps)]
+                          [VText (dep_script (d :: ds))]) as [h5' s] eqn:En5.
+        destruct (new_tag_tagv _ _ _ _ _ _ _ En5) as (E5' & -> & Len5' & Ts).
+        assert (T5' : tagv h5' head hn hws hal ha H (mv :: hitems)).
+        { destruct T5 as (P1 & P2 & P3). repeat split; eapply ext_lookup_some; eauto. }
+        rewrite (kids_update_tagv _ _ _ _ _ _ _ _ _ T5') in M.
+        remember (VRef (S (S (length h5)))) as sv eqn:Esv.
+        injection M as Eh6.
+        assert (K56' : keeps [H] h5' h6)
+          by (rewrite <- Eh6; apply keeps_store; left; reflexivity).
+        assert (K56 : keeps [H] h5 h6).
+        { eapply keeps_trans; [apply keeps_ext, E5'|exact K56']. }
+        assert (Ss : steady [R; H] h5' sv).
+        { exists (length h5), (length h5'). split; [|split; [lia|]].
+          - rewrite Esv. eapply tagv_leaf_frozen; [exact Ts| | | |]; try lia.
+            intros c [<-|[]] l'. discriminate.
+          - intros c [Eq|[Eq|[]]]; lia. }
+        assert (As : abs_val 2 h5' sv = Some (script_tag dep_script (d :: ds))).
+        { rewrite Esv. eapply tagv_abs; [exact Ts|reflexivity]. }
+        destruct (steady_keeps _ _ _ _ Ss (kw _ _ K56')) as [Ss6 As6].
+        destruct (steady_keeps _ _ _ _ Sm5 (kw _ _ K56)) as [Sm6 Am6].
+        destruct (steady_list_keeps _ _ _ _ St5 (kw _ _ K56)) as [St6 Ah6].
+        exists ((mv :: hitems) ++ [sv]), (S (S fh)).
+        split; [exact K56|].
+        split; [rewrite <- Eh6; apply ext_store; [eapply ext_trans; eauto|exact HH]|].
+        split; [rewrite <- Eh6; exact (tagv_store_own _ _ _ _ _ _ _ _ _ T5')|].
+        split; [apply Forall_app; split; [constructor; assumption|constructor; [exact Ss6|constructor]]|].
+        rewrite abs_list_app, !abs_list_cons, abs_list_nil.
+        rewrite (abs_mono 1 (S (S fh)) h6 mv meta_tag) by first [lia | rewrite Am6, Am5; exact Am4].
+        rewrite (abs_list_mono fh (S (S fh)) h6 hitems hk) by first [lia | rewrite Ah6, Ah5; exact Ah].
+        rewrite (abs_mono 2 (S (S fh)) h6 sv (script_tag dep_script (d :: ds)))
+          by first [lia | rewrite As6; exact As].
+        reflexivity. }
+    destruct (match deps with
+              | [] => Some h5
+              | _ :: _ =>
+                let (h3', s) := new_tag h5 s_script true [(s_type, AStr s_htmldeps)]
+                                        [VText (dep_script deps)] in
+                kids_update h3' head (fun its => its ++ [VRef s])
+              end) as [h6|]; [|discriminate].
+    destruct (Mid h6 eq_refl) as (its6 & f6 & K56 & E6 & T6 & S6 & A6).
+    (* the tags of the dependencies *)
+    destruct (alloc_nodes_spec _ (dep_tags_no_custom k deps) h6) as (E7 & F7 & f7 & A7).
+    destruct (alloc_nodes h6 (flat_map (dep_tags k) deps)) as [h7 vs]. cbn [fst snd] in *.
+    assert (T7 : tagv h7 head hn hws hal ha H its6).
+    { destruct T6 as (P1 & P2 & P3). repeat split; eapply ext_lookup_some; eauto. }
+    rewrite (kids_update_tagv _ _ _ _ _ _ _ _ _ T7) in Hf. inversion Hf; subst h'. clear Hf.
+    set (h8 := store h7 H (OList (its6 ++ vs))).
+    assert (K78 : keeps [H] h7 h8) by (apply keeps_store; left; reflexivity).
+    pose proof (ext_length _ _ E7) as L7.
+    pose proof (proj1 K56) as L56. pose proof (ext_length _ _ E4) as L34.
+    assert (Sv7 : Forall (steady [R; H] h7) vs).
+    { eapply Forall_impl; [|exact F7]. intros w Fw. exists (length h6), (length h7).
+      split; [exact Fw|]. split; [lia|]. intros c [Eq|[Eq|[]]]; lia. }
+    destruct (steady_list_keeps _ _ _ _ Sv7 (kw _ _ K78)) as [Sv8 Av8].
+    destruct (steady_list_keeps _ _ _ _ S6 (kw _ _ (keeps_trans _ _ _ _ (keeps_ext _ _ _ E7) K78))) as [S68 A68].
+    exists (its6 ++ vs), (Nat.max f6 f7).
+    split.
+    { eapply keeps_trans; [exact K35|]. eapply keeps_trans; [exact K56|].
+      eapply keeps_trans; [apply keeps_ext, E7|exact K78]. }
+    split; [apply ext_store; [eapply ext_trans; eauto|exact HH]|].
+    split; [exact (tagv_store_own _ _ _ _ _ _ _ _ _ T7)|].
+    rewrite abs_list_app.
+    rewrite (abs_list_mono f6 (Nat.max f6 f7) h8 its6 _ (Nat.le_max_l _ _)) by (rewrite A68; exact A6).
+    rewrite (abs_list_mono f7 (Nat.max f6 f7) h8 vs _ (Nat.le_max_r _ _)) by (rewrite Av8; exact A7).
+    cbn [app]. rewrite <- app_assoc. reflexivity.
+  Qed.
+
+  (* _hoist_head_content refines hoist_pure *)
+  Theorem hoist_refines fuel k h x h' res f t :
+    hoist resolve dep_script dep_tags fuel k h x = Some (h', res) ->
+    abs_val f h (VRef x) = Some t ->
+    exists t' f', hoist_pure resolve dep_script dep_tags k t = Some t'
+                  /\ abs_val f' h' (VRef res) = Some t'.
+  Proof.
+    intros H A. unfold hoist in H.
+    destruct (lookup h x) as [[name ws xal xkl| | | |]|] eqn:Lx; try discriminate.
+    destruct (abs_of_tag_is_tag _ _ _ _ _ _ _ _ Lx A) as (a & kids & ->).
+    destruct (abs_tagv _ _ _ _ _ _ _ A) as (al0 & kl0 & items0 & f0 & Tx & A0).
+    destruct (negb (str_eqb name s_html)) eqn:Nm; [discriminate|].
+    destruct (copy_tag h x) as [[h1 r]|] eqn:Ec; [|discriminate].
+    destruct (copy_tag_tagv _ _ _ _ _ _ _ _ _ _ Tx Ec) as (E1 & -> & Len1 & Tr).
+    set (res0 := S (S (length h))) in *. set (R := S (length h)) in *.
+    destruct (ensure_head h1 res0) as [[h2 hi]|] eqn:Ee; [|discriminate].
+    destruct (ensure_head_refines h h1 res0 name ws (length h) a R items0 f0 kids h2 hi
+                                  E1 ltac:(unfold R; lia) Tr A0 Ee)
+      as (items1 & f1 & K12 & E2 & T2 & A1 & Hhi & St2).
+    set (kh := match find_head_pure kids 0 with
+               | Some i => (kids, i) | None => (head_tag :: kids, O) end) in *.
+    destruct (copy_head h2 res0 hi) as [[h3 head]|] eqn:Eh; [|discriminate].
+    destruct (copy_head_refines h h2 res0 name ws (length h) a R items1 f1 (fst kh) hi h3 head
+                                E2 ltac:(unfold R; lia) T2 A1 St2 Eh)
+      as (hn & hws & ha & hk & hitems & fh & Nk & K23 & E3 & Len3 & -> & T3 & Th & A3 & Hlt
+          & St3 & Sh3 & Ah3).
+    set (head0 := S (S (length h2))) in *. set (H2 := S (length h2)) in *.
+    destruct (fill_head resolve dep_script dep_tags fuel k h3 head0 x) as [h4|] eqn:Ef;
+      [|discriminate].
+    inversion H; subst h' res. clear H.
+    pose proof (ext_length _ _ E1) as L01. pose proof (proj1 K12) as L12.
+    destruct (fill_head_refines fuel k h h3 head0 x hn hws (length h2) ha R H2 hitems
+                                fh hk f name ws a kids h4
+                                E3 ltac:(pose proof (ext_length _ _ E2); unfold H2; lia)
+                                ltac:(unfold R, H2; lia) Th Sh3 Ah3 A Ef)
+      as (hitems' & fh' & K34 & E4 & Th4 & Ah4).
+    set (deps := resolve (flat_map deps_of kids)) in *.
+    set (hk' := meta_tag :: hk ++ (match deps with [] => [] | _ :: _ => [script_tag dep_script deps] end)
+                         ++ flat_map (dep_tags k) deps) in *.
+    (* the result tag in the final heap *)
+    assert (T4 : tagv h4 res0 name ws (length h) a R (set_slice hi [VRef head0] items1)).
+    { eapply (tagv_keeps [H2]); [exact T3|exact K34| | |]; intros [Eq|[]]; unfold H2, R, res0, head0 in *; lia. }
+    assert (K34' : keeps [R; H2] h3 h4).
+    { eapply keeps_weaken; [|exact K34]. intros z [<-|[]]. right. left. reflexivity. }
+    destruct (steady_list_keeps _ _ _ _ St3 K34') as [_ A34].
+    pose proof (tagv_abs _ _ _ _ _ _ _ _ fh' hk' Th4 Ah4) as Ahead.
+    set (F := Nat.max f1 (S fh')).
+    assert (Aitems : abs_list F h4 (set_slice hi [VRef head0] items1)
+                     = Some (slice_nodes hi [TagN hn hws ha hk'] (fst kh))).
+    { unfold set_slice, slice_nodes, abs_list. apply omap_set_slice.
+      - fold (abs_list F h4 items1). eapply abs_list_mono; [apply Nat.le_max_l|].
+        rewrite A34. exact A3.
+      - exact Hlt.
+      - eapply abs_mono; [apply Nat.le_max_r|exact Ahead]. }
+    exists (TagN name ws a (slice_nodes hi [TagN hn hws ha hk'] (fst kh))), (S F).
+    split.
+    - cbn [hoist_pure]. rewrite Nm. fold kh. rewrite <- Hhi, Nk. reflexivity.
+    - eapply tagv_abs; [exact T4|exact Aitems].
+  Qed.
+
+  Lemma tag_step_shape rl h l h' r :
+    items_spec rl -> tag_step rl h l = Some (h', r) ->
+    exists name ws a kl' items',
+      tagv h' r name ws (length h) a kl' items'
+      /\ Forall (confined (S (length h)) h') items' /\ r = S (S (length h)).
+  Proof.
+    intros Hrl H. unfold tag_step in H.
+    destruct (copy_tag h l) as [[h1 cp]|] eqn:Ec; [|discriminate].
+    apply copy_tag_inv in Ec as (name & ws & al & kl & a & items & El & Ea & Ek & -> & ->).
+    set (n := length h) in *.
+    destruct (lookup3 h (OAttrs a) (OList items) (OTag name ws n (S n))) as (L1 & L2 & L3).
+    fold n in L1, L2, L3. rewrite L3, L2 in H.
+    set (h1 := h ++ [OAttrs a; OList items; OTag name ws n (S n)]) in *.
+    destruct (rl h1 items) as [[h2 kl']|] eqn:Er; [|discriminate].
+    inversion H; subst h' r; clear H.
+    destruct (Hrl _ _ _ _ Er) as (E12 & Hkl & items' & Lk & Fc & _).
+    assert (Len1 : length h1 = S (S (S n))).
+    { unfold h1. rewrite app_length. cbn [length]. fold n. lia. }
+    pose proof (ext_length _ _ E12) as Len2.
+    pose proof (lookup_lt _ _ _ Lk) as Lkl.
+    exists name, ws, a, kl', items'. split; [|split; [|reflexivity]].
+    - repeat split.
+      + apply lookup_store_same. lia.
+      + rewrite lookup_store_other by lia. eapply ext_lookup_some; eauto.
+      + rewrite lookup_store_other by lia. exact Lk.
+    - assert (SA : same_above (S kl') h2 (store h2 (S (S n)) (OTag name ws n kl'))).
+      { apply same_above_store. lia. }
+      destruct (Forall_confined_transfer _ _ _ _ Fc SA) as [Fc' _].
+      eapply Forall_impl; [|exact Fc']. intros v. apply confined_weaken. lia.
+  Qed.
+
+  Lemma single_named_eq f h items ts name :
+    abs_list f h items = Some ts ->
+    match single_tag_named h items name with
+    | Some c => items = [VRef c]
+                /\ exists n w a k, single_named_pure ts name = Some (TagN n w a k)
+                                  /\ abs_val f h (VRef c) = Some (TagN n w a k)
+    | None => single_named_pure ts name = None
+    end.
+  Proof.
+    intros A. unfold abs_list in A.
+    destruct items as [|v [|v2 rest]]; cbn [omap] in A.
+    - inversion A. reflexivity.
+    - destruct (abs_val f h v) as [t|] eqn:Ev; [|discriminate]. inversion A; subst ts.
+      destruct f as [|f']; [discriminate|]. pose proof Ev as Ev'. rewrite abs_val_S in Ev'.
+      destruct v as [s|s|s|c]; cbn [single_tag_named]; try (inversion Ev'; reflexivity).
+      destruct (lookup h c) as [[n w al kl| | |p|sh exp]|] eqn:Lc; try discriminate.
+      + destruct (lookup h al) as [[|a0| | |]|]; try discriminate.
+        destruct (lookup h kl) as [[| |its| |]|]; try discriminate.
+        destruct (omap (abs_val f' h) its) as [ks|]; [|discriminate]. inversion Ev'; subst t.
+        cbn [single_named_pure]. destruct (str_eqb n name); [|reflexivity].
+        split; [reflexivity|]. exists n, w, a0, ks. split; [reflexivity|exact Ev].
+      + inversion Ev'. reflexivity.
+      + destruct (omap (abs_val f' h) exp); [|discriminate]. inversion Ev'. reflexivity.
+    - destruct (abs_val f h v) as [t|]; [|discriminate].
+      destruct (abs_val f h v2) as [t2|]; [|discriminate].
+      destruct (omap (abs_val f h) rest) as [tr|]; [|discriminate]. inversion A.
+      cbn. destruct v as [| | |c]; destruct t; reflexivity.
+  Qed.
+
+  (* _gen_html_tag_tree refines gen_tree_pure *)
+  Theorem gen_tree_refines fuel k h content items h' html f ts :
+    gen_tree upd mk resolve dep_script dep_tags fuel k h content = Some (h', html) ->
+    lookup h content = Some (OList items) -> abs_list f h items = Some ts ->
+    exists t f', gen_tree_pure upd mk resolve dep_script dep_tags k ts = Some t
+                 /\ abs_val f' h' (VRef html) = Some t.
+  Proof.
+    intros H Lc A. unfold gen_tree in H. rewrite Lc in H. unfold gen_tree_pure.
+    pose proof (single_named_eq f h items ts s_html A) as S1.
+    destruct (single_tag_named h items s_html) as [c|].
+    - destruct S1 as (_ & n & w & a & ks & P1 & Ac). rewrite P1.
+      destruct (tag_tagify fuel h c) as [[h1 ht]|] eqn:Et; [|discriminate].
+      destruct (tag_tagify_spec fuel _ _ _ _ Et) as (E1 & _ & Rf).
+      destruct (Rf f _ Ac) as (t' & St & At). cbn [subst] in St. inversion St; subst t'.
+      clear St. cbn [subst].
+      destruct (tag_step_shape _ _ _ _ _ (tagify_items_spec fuel) Et)
+        as (n1 & w1 & a1 & kl' & items' & T1 & Fc & Hr).
+      destruct (abs_tagv _ _ _ _ _ _ _ At) as (al2 & kl2 & its2 & f2 & T2 & A2).
+      destruct T1 as (Q1 & Q2 & Q3). destruct T2 as (U1 & U2 & U3).
+      rewrite Q1 in U1. inversion U1; subst n1 w1 al2 kl2.
+      rewrite Q2 in U2. inversion U2; subst a1. rewrite Q3 in U3. inversion U3; subst its2.
+      rewrite Q1, Q2 in H.
+      set (h1' := store h1 (length h) (OAttrs (upd k a))) in *.
+      assert (T' : tagv h1' ht n w (length h) (upd k a) kl' items').
+      { pose proof (lookup_lt _ _ _ Q2). repeat split.
+        - unfold h1'. rewrite lookup_store_other; [exact Q1|]. intros ->. congruence.
+        - apply lookup_store_same. assumption.
+        - unfold h1'. rewrite lookup_store_other; [exact Q3|]. intros ->. congruence. }
+      assert (SA : same_above (S (length h)) h1 h1') by (apply same_above_store; lia).
+      destruct (Forall_confined_transfer _ _ _ _ Fc SA) as [_ A'].
+      pose proof (tagv_abs _ _ _ _ _ _ _ _ f2 _ T' ltac:(rewrite A'; exact A2)) as Aht.
+      destruct (hoist_refines fuel k h1' ht h' html _ _ H Aht) as (t' & f' & P & Q).
+      exists t', f'. split; [exact P|exact Q].
+    - rewrite S1.
+      pose proof (single_named_eq f h items ts s_body A) as S2.
+      set (bodyt := match single_named_pure ts s_body with
+                    | Some b => b | None => TagN s_body true [] ts end).
+      destruct (match single_tag_named h items s_body with
+                | Some c => (h, c)
+                | None => new_tag h s_body true [] items
+                end) as [h1 body] eqn:Eb.
+      assert (B : ext h h1 /\ exists fb, abs_val fb h1 (VRef body) = Some bodyt).
+      { unfold bodyt. destruct (single_tag_named h items s_body) as [c|].
+        - destruct S2 as (_ & n & w & a & ks & P1 & Ac). rewrite P1.
+          inversion Eb; subst h1 body. split; [apply ext_refl|]. exists f. exact Ac.
+        - rewrite S2. destruct (new_tag_tagv _ _ _ _ _ _ _ Eb) as (E1 & _ & _ & T).
+          split; [exact E1|]. exists (S f). eapply tagv_abs; [exact T|].
+          eapply abs_list_ext; eauto. }
+      destruct B as (E1 & fb & Ab).
+      destruct (tag_tagify fuel h1 body) as [[h2 body']|] eqn:Et; [|discriminate].
+      destruct (tag_tagify_spec fuel _ _ _ _ Et) as (E2 & _ & Rf).
+      destruct (Rf fb _ Ab) as (b' & Sb & Ab'). rewrite Sb.
+      destruct (new_tag h2 s_head true [] []) as [h3 hd] eqn:En3.
+      destruct (new_tag_tagv _ _ _ _ _ _ _ En3) as (E3 & _ & _ & T3).
+      destruct (new_tag h3 s_html true (mk k) [VRef hd; VRef body']) as [h4 ht] eqn:En4.
+      destruct (new_tag_tagv _ _ _ _ _ _ _ En4) as (E4 & _ & _ & T4).
+      pose proof (tagv_abs _ _ _ _ _ _ _ _ fb [] T3 eq_refl) as Ahd.
+      assert (A4 : abs_list (S fb) h4 [VRef hd; VRef body'] = Some [head_tag; b']).
+      { rewrite !abs_list_cons, abs_list_nil.
+        rewrite (abs_ext (S fb) h3 h4 _ _ E4 Ahd).
+        rewrite (abs_mono fb (S fb) h4 (VRef body') b'); [reflexivity|lia|].
+        eapply abs_ext; [exact (ext_trans _ _ _ E3 E4)|exact Ab']. }
+      pose proof (tagv_abs _ _ _ _ _ _ _ _ _ _ T4 A4) as Aht.
+      destruct (hoist_refines fuel k h4 ht h' html _ _ H Aht) as (t' & f' & P & Q).
+      exists t', f'. split; [exact P|exact Q].
+  Qed.
+
+  Notation run_op' := (run_op upd mk resolve dep_script dep_tags).
+  Notation run_ops' := (run_ops upd mk resolve dep_script dep_tags).
+  Notation pure_op' := (pure_op upd mk resolve dep_script dep_tags).
+
+  Lemma doc_render_obs fuel k h content items h' r f ts :
+    doc_render upd mk resolve dep_script dep_tags fuel k h content = Some (h', r) ->
+    lookup h content = Some (OList items) -> abs_list f h items = Some ts ->
+    exists out, Some out = doc_pure upd mk resolve dep_script dep_tags k (RL ts)
+                /\ forall f', observe f' h' r = Some out.
+  Proof.
+    intros H Lc A. unfold doc_render in H.
+    destruct (gen_tree upd mk resolve dep_script dep_tags fuel k h content) as [[h1 ht]|] eqn:Eg;
+      [|discriminate].
+    destruct (gen_tree_refines _ _ _ _ _ _ _ _ _ Eg Lc A) as (t & f1 & P & At).
+    destruct (render resolve fuel h1 ht) as [[h2 [ | | |s d]]|] eqn:Er; try discriminate.
+    inversion H; subst h' r. clear H.
+    assert (Ar : abs_root f1 h1 ht = Some (RT t)).
+    { unfold abs_root, abs. destruct t; try (exfalso; revert P; clear; intros P;
+        unfold gen_tree_pure in P; repeat match type of P with
+          | context [match ?x with _ => _ end] => destruct x; try discriminate end;
+        unfold hoist_pure in P; repeat match type of P with
+          | context [match ?x with _ => _ end] => destruct x; try discriminate
+          | context [if ?x then _ else _] => destruct x; try discriminate end; fail).
+      destruct (abs_tag_inv _ _ _ _ _ _ _ At) as (al & kl & L). rewrite L, At. reflexivity. }
+    destruct (run_op_obs upd mk resolve dep_script dep_tags fuel h1 (OpRender ht) h2
+                         (RRender s d) f1 (RT t) Er eq_refl Ar) as [O NN].
+    cbn [observe pure_op] in O. unfold doc_pure. rewrite P.
+    destruct (root_subst (RT t)) as [r'|]; cbn [option_map] in O |- *; [|discriminate].
+    inversion O. eexists. split; [reflexivity|]. intros f'. reflexivity.
+  Qed.
+
+  (* every operation: the outcome is the pure function of what the receiver denotes *)
+  Theorem run_op_obs_all fuel h o h' r f rt :
+    run_op' fuel h o = Some (h', r) -> abs_root f h (op_target o) = Some rt ->
+    exists f', observe f' h' r = pure_op' o rt /\ pure_op' o rt <> None.
+  Proof.
+    intros H A. destruct (is_doc o) eqn:Hd.
+    - destruct o as [l|l|l i e|l|l|l k|l k]; try discriminate; cbn [run_op op_target pure_op] in *.
+      + (* HTMLDocument(x).render() *)
+        unfold abs_root, abs in A.
+        destruct (lookup h l) as [[n0 w0 a0 k0| |items| |]|] eqn:El; try discriminate.
+        * destruct (abs_val f h (VRef l)) as [t|] eqn:At; [|discriminate]. inversion A; subst rt.
+          unfold alloc in H.
+          destruct (doc_render_obs fuel k (h ++ [OList [VRef l]]) (length h) [VRef l] h' r f [t] H
+                                   (lookup_new _ _)) as (out & P & O).
+          { rewrite abs_list_cons, abs_list_nil, (abs_ext f h _ _ _ (ext_app _ _) At). reflexivity. }
+          exists 0%nat. rewrite (O 0%nat).
+          change (doc_pure upd mk resolve dep_script dep_tags k (RT t))
+            with (doc_pure upd mk resolve dep_script dep_tags k (RL [t])).
+          split; [exact P|]. rewrite <- P. discriminate.
+        * destruct (abs_list f h items) as [ts|] eqn:At; [|discriminate]. inversion A; subst rt.
+          unfold alloc in H.
+          destruct (doc_render_obs fuel k (h ++ [OList items]) (length h) items h' r f ts H
+                                   (lookup_new _ _) (abs_list_ext f h _ _ _ (ext_app _ _) At))
+            as (out & P & O).
+          exists 0%nat. rewrite (O 0%nat). split; [exact P|]. rewrite <- P. discriminate.
+      + (* _hoist_head_content *)
+        destruct (hoist resolve dep_script dep_tags fuel k h l) as [[h1 r1]|] eqn:Eh; [|discriminate].
+        inversion H; subst h' r. clear H.
+        unfold abs_root, abs in A.
+        destruct (lookup h l) as [[n0 w0 a0 k0| |items| |]|] eqn:El; try discriminate;
+          [|unfold hoist in Eh; rewrite El in Eh; discriminate].
+        destruct (abs_val f h (VRef l)) as [t|] eqn:At; [|discriminate]. inversion A; subst rt.
+        destruct (hoist_refines fuel k h l h1 r1 f t Eh At) as (t' & f' & P & Q).
+        exists f'. rewrite P. cbn [option_map observe]. split; [|discriminate].
+        unfold abs_root, abs.
+        assert (exists n w a ks, t' = TagN n w a ks) as (n & w & a & ks & ->).
+        { unfold hoist_pure in P. destruct t; try discriminate.
+          destruct (negb (str_eqb name s_html)); [discriminate|].
+          destruct (nth_error _ _) as [[| | | |? ? ? ?|]|]; try discriminate.
+          inversion P. eauto. }
+        destruct (abs_tag_inv _ _ _ _ _ _ _ Q) as (al & kl & L). rewrite L, Q. reflexivity.
+    - exists f. exact (run_op_obs upd mk resolve dep_script dep_tags fuel h o h' r f rt H Hd A).
+  Qed.
+
+  Theorem run_ops_replay_all fuel os : forall h0 h h' rs,
+    ext h0 h -> run_ops' fuel h os = Some (h', rs) ->
+    ext h0 h' /\
+    Forall2 (fun o r => forall f rt,
+                 abs_root f h0 (op_target o) = Some rt ->
+                 exists f', observe f' h' r = pure_op' o rt /\ pure_op' o rt <> None) os rs.
+  Proof.
+    induction os as [|o os IH]; intros h0 h h' rs He H; cbn [run_ops] in H.
+    - inversion H; subst. split; [exact He|constructor].
+    - destruct (run_op' fuel h o) as [[h1 r]|] eqn:E1; [|discriminate].
+      destruct (run_ops' fuel h1 os) as [[h2 rs']|] eqn:E2; [|discriminate].
+      inversion H; subst h' rs; clear H.
+      pose proof (run_op_ext _ _ _ _ _ _ _ _ _ _ E1) as X1.
+      pose proof (run_ops_ext _ _ _ _ _ _ _ _ _ _ E2) as X2.
+      destruct (IH h0 h1 h2 rs' (ext_trans _ _ _ He X1) E2) as [X3 F].
+      split; [exact X3|]. constructor; [|exact F].
+      intros f rt A.
+      destruct (run_op_obs_all _ _ _ _ _ f rt E1 (abs_root_ext _ _ _ _ _ He A)) as (f' & O & NN).
+      exists f'. split; [|exact NN].
+      destruct (pure_op' o rt) as [out|] eqn:P; [|congruence].
+      exact (observe_ext upd mk resolve dep_script dep_tags f' h1 h2 r out X2 O).
+  Qed.
+End DocRefine.
+
+(* the full replay statement of Properties/C08.v *)
+Theorem c08_replay_all :
+  forall upd mk resolve dep_script dep_tags fuel os h h' rs,
+    (forall k p, forallb no_custom (dep_tags k p) = true) ->
+    wf h ->
+    run_ops upd mk resolve dep_script dep_tags fuel h os = Some (h', rs) ->
+    (exists ext, h' = h ++ ext)
+    /\ (forall f v, val_ok (length h) v -> abs_val f h' v = abs_val f h v)
+    /\ Forall2 (fun o r =>
+                  forall f rt, abs_root f h (op_target o) = Some rt ->
+                    exists out,
+                      pure_op upd mk resolve dep_script dep_tags o rt = Some out
+                      /\ (exists f', observe f' h' r = Some out)
+                      /\ forall h1 r1,
+                          run_op upd mk resolve dep_script dep_tags fuel h o = Some (h1, r1) ->
+                          exists f1, observe f1 h1 r1 = Some out) os rs.
+Proof.
+  intros upd mk resolve dep_script dep_tags fuel os h h' rs Hdt W H.
+  destruct (run_ops_replay_all upd mk resolve dep_script dep_tags Hdt fuel os h h h' rs
+                               (ext_refl h) H) as [[e ->] F].
+  split; [exists e; reflexivity|]. split.
+  - intros f v Hv. apply abs_frame_wf; assumption.
+  - eapply Forall2_impl'; [|exact F]. intros o r P f rt A.
+    destruct (P f rt A) as (f' & O & NN).
+    destruct (pure_op upd mk resolve dep_script dep_tags o rt) as [out|] eqn:E; [|congruence].
+    exists out. split; [reflexivity|]. split; [exists f'; exact O|].
+    intros h1 r1 H1.
+    destruct (run_op_obs_all upd mk resolve dep_script dep_tags Hdt fuel h o h1 r1 f rt H1 A)
+      as (f1 & O1 & _).
+    exists f1. rewrite O1. exact E.
+Qed.
